@@ -13,6 +13,7 @@ from vf.hyp import drive, st
 from vf.runner import Collector
 
 ID = "C12"
+EARLY_ATTRIBUTION = True  # region predicates are cheap scans of the stored case
 LEVEL = "exploration"
 EXHAUSTIVE = True
 RULE = ("Exhaustive part: every non-deprecated (op, since_version) of the default domain reachable from opsets 13..23 (thorough: 1..23) that "
